@@ -352,6 +352,33 @@ def check_c17(sim):
     return pr
 
 
+def check_connect_answered(sim):
+    """with a reconnect limit, every explicit connect() of the application is answered: 'connected', or - when the
+    device stays away - 'failed' once the attempts are used up AGAIN ("never silent": a supervisor waiting for one
+    of the two must not wait for ever).  Judged on runs that came to rest with nothing pending."""
+    pr = []
+    if not sim.is_hid or sim.hang or sim.cfg.get("limit") is None:
+        return pr
+    d = sim.drv
+    if d._reconnect_task is not None:
+        return pr
+    evs = sim.events
+    conn = [i for i, e in enumerate(evs) if e[1] == "env" and e[2] == "connect"]
+    for n, i in enumerate(conn):
+        # the next explicit connect() is only made once the driver is idle again (no device, no retry pending):
+        # by then this one's round of attempts is over and must have reported its outcome
+        j = conn[n + 1] if n + 1 < len(conn) else len(evs)
+        if True:
+            later = [x[3] for x in evs[i + 1:j] if x[1] == "drv" and x[2] == "cb"]
+            if not later:
+                pr.append(("status:%s:silent" % sim.kind,
+                           "the explicit connect() is answered by 'connected' or 'failed'",
+                           "callbacks before it %s, none after it; driver idle (no device, no retry pending)"
+                           % ([c[1] for c in sim.cbs],)))
+                break
+    return pr
+
+
 def check_inflight(sim):
     """every caller in flight at a loss leaves with CommunicationError at once (exceptions on)"""
     pr = []
@@ -424,6 +451,7 @@ def check_all(sim):
         # an answer later than timeout_rx is (mis)handled by the stale-answer logic: property C16's business
         pr += check_results(sim, faulty)
     pr += check_c17(sim)
+    pr += check_connect_answered(sim)
     pr += check_inflight(sim)
     pr += check_serial_timeouts(sim)
     pr += check_retry_units(sim)
